@@ -46,6 +46,8 @@ enum Edit {
     /// compact the default folder (history rewrite: the other side meets a
     /// hard conflict and force-merges)
     CompactDefault,
+    /// a file secret created from a real file (a file-log event)
+    AttachFile,
 }
 
 impl Edit {
@@ -64,6 +66,7 @@ impl Edit {
             Edit::UpdateS1 => "update_s1",
             Edit::CreateInF1 => "create_in_f1",
             Edit::UpdateCreated => "update_created",
+            Edit::AttachFile => "attach_file",
             Edit::CompactDefault => "compact_default",
         }
     }
@@ -138,6 +141,15 @@ async fn apply_edit(
         }
         Edit::CompactDefault => {
             acc.compact_folder(&default).await?;
+        }
+        Edit::AttachFile => {
+            let path = std::env::temp_dir().join(format!("syncx-file-{}-d{}k{}.txt", std::process::id(), d, k));
+            std::fs::write(&path, format!("file content of device {} edit {}", d, k))?;
+            let secret: sos_vault::secret::Secret = path.clone().try_into()?;
+            let meta = sos_vault::secret::SecretMeta::new(format!("file-d{}k{}", d, k), secret.kind());
+            let r = acc.create_secret(meta, secret, in_folder(default)).await;
+            let _ = std::fs::remove_file(&path);
+            created.push(r?.id);
         }
         Edit::UpdateCreated => {
             let id = *created.last().ok_or_else(|| anyhow!("nothing created yet"))?;
@@ -502,6 +514,18 @@ async fn run_scenario(t: &Template, sc: &Scenario, work: &Path) -> Value {
                 let _ = a.initialize_search_index().await;
             }
             devices.push(dv);
+        }
+        // worlds with file-log edits start from a shared NON-EMPTY file
+        // log: device 0 attaches a file and every device syncs once
+        if sc.edits.iter().flatten().any(|e| matches!(e, Edit::AttachFile)) {
+            clock::set_device(0);
+            let mut created = vec![];
+            apply_edit(&devices[0], t, &Edit::AttachFile, 99, &mut created).await.map_err(|er| anyhow!("pre-history attach failed: {}", er))?;
+            for d in 0..devices.len() {
+                if devices[d].sync().await != SyncResult::Ok {
+                    return Err(anyhow!("pre-history sync of device {} failed", d));
+                }
+            }
         }
         // prefix logs (common to all)
         let prefix: BTreeMap<String, Vec<EventRecord>> = {
@@ -1047,6 +1071,12 @@ fn scenarios(tier: Tier, backend: Backend, server_db: bool) -> Vec<Scenario> {
             for o in &orders {
                 out.push(Scenario { edits: vec![x.clone(), y.clone()], order: o.clone(), clock: clocks[0], client_backend: backend, server_db });
             }
+        }
+    }
+    // divergent file logs (both devices attach a file offline)
+    for y in [vec![Edit::AttachFile], vec![], vec![Edit::CreateNote]] {
+        for o in &orders {
+            out.push(Scenario { edits: vec![vec![Edit::AttachFile], y.clone()], order: o.clone(), clock: clocks[0], client_backend: backend, server_db });
         }
     }
     // long divergence: one device is more than one page of the proof scan
